@@ -97,12 +97,12 @@ PROPS = {
     },
     "C09": {
         "lean": ["FsnVerif.Props.C09"],
-        "lean_support": ["FsnVerif.Proofs.InvLemmas", "FsnVerif.Props.C12", "FsnVerif.Props.C02", "FsnVerif.Model.Inotify"],
+        "lean_support": ["FsnVerif.Proofs.InvLemmas", "FsnVerif.Proofs.CleanLemmas", "FsnVerif.Proofs.PathLemmas", "FsnVerif.Props.C12", "FsnVerif.Props.C02", "FsnVerif.Model.Inotify"],
         "stages": [{"name": "inject", "cmd": "inject", "what": "C09", "sessions": True},
                    {"name": "live", "cmd": "live", "what": "C09", "sessions": True}],
         "rule": INJECT_RULE + LIVE_RULE,
         "assumptions": ["the kernel decides when IN_DELETE_SELF / IN_IGNORED / IN_MOVE_SELF are raised (K2)",
-                        "filepath.Clean is idempotent on stored paths (hypothesis `hclean` of self_gone_ends_watch; validated differentially)"],
+                        "filepath.Clean is modelled (Model/Path.clean, proved idempotent) and validated differentially against the real function"],
     },
     "C10": {
         "lean": ["FsnVerif.Props.C10"],
